@@ -48,6 +48,22 @@ pub struct GenOpts {
   pub undefined: bool,
   /// `#6` / `#6(...)` without a tag number
   pub tag_without_number: bool,
+  /// shared-feature extras of C04: unwrap, group-to-choice, sockets, .regexp, .default, .cat, .plus
+  pub extras: bool,
+  pub unwrap: bool,
+  pub choice_from_group: bool,
+  pub sockets: bool,
+  pub regexp: bool,
+  pub default_ctl: bool,
+  pub cat_plus: bool,
+  /// `g<g<x>>`: a generic rule instantiated inside its own argument list
+  pub generic_self_nesting: bool,
+  /// recursion that passes through a generic rule (open finding: stack overflow)
+  pub generic_recursion: bool,
+  /// `&name` (group-to-choice over a named group rule)
+  pub choice_from_named_group: bool,
+  /// a generic parameter used inside the argument list of another instantiation (`a<T> = b<T>`)
+  pub generic_param_forwarding: bool,
 }
 
 impl Default for GenOpts {
@@ -76,6 +92,17 @@ impl Default for GenOpts {
       recursion: true,
       undefined: true,
       tag_without_number: true,
+      extras: false,
+      unwrap: true,
+      choice_from_group: true,
+      sockets: true,
+      regexp: true,
+      default_ctl: true,
+      cat_plus: true,
+      generic_self_nesting: true,
+      generic_recursion: true,
+      choice_from_named_group: true,
+      generic_param_forwarding: true,
     }
   }
 }
@@ -102,6 +129,10 @@ pub struct SemGen<'a, 'b, 'o> {
   params: Vec<String>,
   /// inside a container entry with a zero minimum (recursion allowed)
   can_recurse: bool,
+  /// generic rules whose argument list is being generated (a rule instantiated inside its own arguments
+  /// overflows the stack of both validators: open finding C05-F2)
+  in_args_of: Vec<usize>,
+  no_socket_refs: bool,
 }
 
 fn name_ty2(n: &str) -> Ty2 {
@@ -110,7 +141,7 @@ fn name_ty2(n: &str) -> Ty2 {
 
 impl<'a, 'b, 'o> SemGen<'a, 'b, 'o> {
   pub fn new(t: &'a mut Tape<'b>, o: &'o GenOpts) -> Self {
-    SemGen { t, o, plan: vec![], cur: 0, params: vec![], can_recurse: false }
+    SemGen { t, o, plan: vec![], cur: 0, params: vec![], can_recurse: false, in_args_of: vec![], no_socket_refs: false }
   }
 
   pub fn schema(&mut self) -> Schema {
@@ -178,6 +209,22 @@ impl<'a, 'b, 'o> SemGen<'a, 'b, 'o> {
         rules.insert(pos.min(rules.len()), r);
       }
     }
+    if self.o.extras && self.o.sockets {
+      // plugs for the sockets that may have been referenced (a socket without plugs matches nothing)
+      self.cur = self.plan.len();
+      self.can_recurse = false;
+      self.params.clear();
+      for name in ["$sock", "$other"] {
+        let n = self.t.below(3);
+        for _ in 0..n {
+          // a plug never refers to a socket (alias cycles have no meaning)
+          self.no_socket_refs = true;
+          let ty = Ty(vec![self.leaf_ty1(0)]);
+          self.no_socket_refs = false;
+          rules.push(RuleM { name: name.to_string(), params: vec![], alt: true, body: Body::Ty(ty) });
+        }
+      }
+    }
     self.params.clear();
     Schema(rules)
   }
@@ -236,35 +283,54 @@ impl<'a, 'b, 'o> SemGen<'a, 'b, 'o> {
 
   /// reference to a type rule that may be used here (later rule, or any rule when recursion is allowed)
   fn type_ref(&mut self, d: usize) -> Option<Ty2> {
-    let lo = if self.can_recurse && self.o.recursion { 0 } else { self.cur + 1 };
-    let cands: Vec<usize> = (lo..self.plan.len()).filter(|i| !self.plan[*i].is_group).collect();
+    let lo = if self.can_recurse && self.o.recursion && self.rec_ok() { 0 } else { self.cur + 1 };
+    let cands: Vec<usize> = (lo..self.plan.len())
+      .filter(|i| !self.plan[*i].is_group && (self.o.generic_self_nesting || !self.in_args_of.contains(i)))
+      .filter(|i| *i > self.cur || self.o.generic_recursion || self.plan[*i].params.is_empty())
+      .collect();
     if cands.is_empty() {
       return None;
     }
     let i = *self.t.pick(&cands);
     let p = self.plan[i].clone();
+    self.in_args_of.push(i);
     let args: Vec<Ty1> = p.params.iter().map(|_| self.generic_arg(d)).collect();
+    self.in_args_of.pop();
     Some(Ty2::Name { name: p.name, args })
+  }
+
+  /// may the rule being generated take part in a reference cycle?
+  fn rec_ok(&self) -> bool {
+    self.o.generic_recursion || self.plan.get(self.cur).map(|p| p.params.is_empty()).unwrap_or(true)
   }
 
   fn generic_arg(&mut self, d: usize) -> Ty1 {
     // arguments are closed leaf-ish type1s (no recursion through arguments)
     let save = self.can_recurse;
     self.can_recurse = false;
+    let saved_params = if self.o.generic_param_forwarding { None } else { Some(std::mem::take(&mut self.params)) };
     let r = self.leaf_ty1(d.min(1));
+    if let Some(p) = saved_params {
+      self.params = p;
+    }
     self.can_recurse = save;
     r
   }
 
   fn group_ref(&mut self, d: usize) -> Option<(String, Vec<Ty1>)> {
-    let lo = if self.can_recurse && self.o.recursion { 0 } else { self.cur + 1 };
-    let cands: Vec<usize> = (lo..self.plan.len()).filter(|i| self.plan[*i].is_group).collect();
+    let lo = if self.can_recurse && self.o.recursion && self.rec_ok() { 0 } else { self.cur + 1 };
+    let cands: Vec<usize> = (lo..self.plan.len())
+      .filter(|i| self.plan[*i].is_group && (self.o.generic_self_nesting || !self.in_args_of.contains(i)))
+      .filter(|i| *i > self.cur || self.o.generic_recursion || self.plan[*i].params.is_empty())
+      .collect();
     if cands.is_empty() {
       return None;
     }
     let i = *self.t.pick(&cands);
     let p = self.plan[i].clone();
+    self.in_args_of.push(i);
     let args: Vec<Ty1> = p.params.iter().map(|_| self.generic_arg(d)).collect();
+    self.in_args_of.pop();
     Some((p.name, args))
   }
 
@@ -380,6 +446,7 @@ impl<'a, 'b, 'o> SemGen<'a, 'b, 'o> {
       8,
       if self.o.cbor { 10 } else { 0 },
       if !self.params.is_empty() { 14 } else { 0 },
+      if self.o.extras { 14 } else { 0 },
     ];
     match self.t.weighted(&w) {
       0 => Ty1::plain(name_ty2(self.prelude_scalar())),
@@ -399,9 +466,79 @@ impl<'a, 'b, 'o> SemGen<'a, 'b, 'o> {
         None => Ty1::plain(name_ty2(self.prelude_scalar())),
       },
       5 => self.cbor_leaf(d),
-      _ => {
+      6 => {
         let p = self.t.pick(&self.params.clone()).clone();
         Ty1::plain(name_ty2(&p))
+      }
+      _ => self.extra_leaf(d),
+    }
+  }
+
+  /// constructs of the shared JSON/CBOR feature set beyond the core fragment (C04, C08)
+  fn extra_leaf(&mut self, d: usize) -> Ty1 {
+    let w = [
+      if self.o.unwrap { 20 } else { 0 },
+      if self.o.choice_from_group { 20 } else { 0 },
+      if self.o.sockets && !self.no_socket_refs { 15 } else { 0 },
+      if self.o.regexp { 15 } else { 0 },
+      if self.o.default_ctl { 10 } else { 0 },
+      if self.o.cat_plus { 20 } else { 0 },
+    ];
+    match self.t.weighted(&w) {
+      0 => {
+        // ~name of a later non-generic type rule
+        let lo = self.cur + 1;
+        let cands: Vec<usize> = (lo..self.plan.len()).filter(|i| !self.plan[*i].is_group && self.plan[*i].params.is_empty()).collect();
+        if cands.is_empty() {
+          return Ty1::plain(name_ty2("int"));
+        }
+        let i = *self.t.pick(&cands);
+        Ty1::plain(Ty2::Unwrap { name: self.plan[i].name.clone(), args: vec![] })
+      }
+      1 => {
+        if self.t.flag() || !self.o.choice_from_named_group {
+          let n = 1 + self.t.below(3);
+          let mut ents = vec![];
+          for k in 0..n {
+            let key = Key::Bare(["red", "green", "blue"][k].to_string());
+            let ty = match self.t.below(3) {
+              0 => Ty(vec![Ty1::plain(Ty2::Lit(Lit::int(k as i128 + 1)))]),
+              1 => Ty(vec![Ty1::plain(Ty2::Lit(self.text_lit()))]),
+              _ => Ty(vec![Ty1::plain(name_ty2(self.prelude_scalar()))]),
+            };
+            ents.push(Ent { occ: None, kind: EntKind::Val { key: Some(key), ty } });
+          }
+          Ty1::plain(Ty2::ChoiceInline(Grp(vec![ents])))
+        } else {
+          match self.group_ref(d) {
+            Some((name, args)) => Ty1::plain(Ty2::ChoiceName { name, args }),
+            None => Ty1::plain(name_ty2("tstr")),
+          }
+        }
+      }
+      2 => Ty1::plain(name_ty2(*self.t.pick(&["$sock", "$other"]))),
+      3 => {
+        let re = *self.t.pick(&["[a-z]+", "a.c", "[0-9]{2,3}", "(ab)*", "caf.", "^x"]);
+        Ty1 { t2: name_ty2(*self.t.pick(&["tstr", "text"])), op: Some((Op::Ctl("regexp".into()), Ty2::Lit(Lit::text(re)))) }
+      }
+      4 => {
+        let (t, c) = match self.t.below(3) {
+          0 => ("int", Lit::int(self.int_lit())),
+          1 => ("tstr", self.text_lit()),
+          _ => ("uint", Lit::int(self.t.below(5) as i128)),
+        };
+        Ty1 { t2: name_ty2(t), op: Some((Op::Ctl("default".into()), Ty2::Lit(c))) }
+      }
+      _ => {
+        if self.t.flag() {
+          let a = self.text_lit();
+          let b = self.text_lit();
+          Ty1 { t2: Ty2::Lit(a), op: Some((Op::Ctl("cat".into()), Ty2::Lit(b))) }
+        } else {
+          let a = Lit::int(self.t.range(0, 9) as i128);
+          let b = Lit::int(self.t.range(0, 9) as i128);
+          Ty1 { t2: Ty2::Lit(a), op: Some((Op::Ctl("plus".into()), Ty2::Lit(b))) }
+        }
       }
     }
   }
